@@ -278,6 +278,7 @@ func (m *Machine) drawAvs(t *rapid.T, g *GenOpts, a *Action) {
 		}
 		var cands []cand
 		var committed *avsCommitRec
+		var probes []cand
 		for ti := len(v.tasks) - 1; ti >= 0 && ti >= len(v.tasks)-6; ti-- {
 			task := v.tasks[ti]
 			avs := m.C.App.AVSManagerKeeper.GetAVSInfoByTaskAddress(m.C.Ctx(), task.TaskContractAddress)
@@ -304,6 +305,10 @@ func (m *Machine) drawAvs(t *rapid.T, g *GenOpts, a *Action) {
 					cands = append(cands, cand{oi, task, avstypes.TwoPhaseCommitOne})
 				case e.CurrentEpoch > endResp && e.CurrentEpoch <= endStat && have != nil:
 					cands = append(cands, cand{oi, task, avstypes.TwoPhaseCommitTwo})
+				case e.CurrentEpoch <= endResp && have != nil && have.Stage == avstypes.TwoPhaseCommitOne:
+					// an otherwise complete phase-two result while the response period is still
+					// open (its last epoch included): must be refused as too early
+					probes = append(probes, cand{oi, task, avstypes.TwoPhaseCommitTwo})
 				}
 			}
 		}
@@ -315,6 +320,9 @@ func (m *Machine) drawAvs(t *rapid.T, g *GenOpts, a *Action) {
 		}
 		if len(reveal) > 0 && pct(t, 70, "reveal-first?") {
 			cands = reveal // the rarer kind
+		}
+		if len(probes) > 0 && pct(t, 25, "early-reveal?") {
+			cands = probes
 		}
 		if len(cands) > 0 && pct(t, 80, "fitting?") {
 			c := cands[uniform(t, len(cands), "cand")]
